@@ -14,14 +14,20 @@ import (
 // checkValue: print, read back with all three readers, compare with the
 // model, print again.  domain only names the class of a failure.
 func checkValue(n *node, modes bool) (text string, f *fail) {
+	return checkBuilt(n, n.build, modes)
+}
+
+// checkBuilt is checkValue for a value the caller constructs (so that the
+// value may share sub-values, which node.build never does).
+func checkBuilt(n *node, build func() *lisp.LVal, modes bool) (text string, f *fail) {
 	var v *lisp.LVal
 	func() {
 		defer func() {
 			if p := recover(); p != nil {
-				f = &fail{"panic", "printing does not panic", fmt.Sprint(p)}
+				f = &fail{"panic", "building and printing do not panic", fmt.Sprint(p)}
 			}
 		}()
-		v = n.build()
+		v = build()
 		text = v.String()
 	}()
 	if f != nil {
